@@ -66,50 +66,9 @@ Proof.
   simpl. destruct (astep c a) as [a1 o]; simpl. destruct (arun l a1); reflexivity.
 Qed.
 
-(** * The serve rule: with truthy handlers the code's [or] is the property's "else" *)
-Lemma table_truthy_app a b : table_truthy (a ++ b) = table_truthy a && table_truthy b.
-Proof. unfold table_truthy. apply forallb_app. Qed.
-
-Lemma handlers_truthy o r : objs_truthy o = true -> table_truthy (handlers_of o r) = true.
-Proof.
-  unfold objs_truthy, handlers_of. intros H. apply andb_true_iff in H. destruct H as [Hh _].
-  destruct (lookup r (heap o)) as [t|] eqn:E; [|reflexivity].
-  exact (lookup_forallb table_truthy r (heap o) t Hh E).
-Qed.
-
-Lemma defaults_truthy o : objs_truthy o = true -> table_truthy (defaults o) = true.
-Proof. unfold objs_truthy. intros H. apply andb_true_iff in H. tauto. Qed.
-
-Lemma serve_aserve o r t : objs_truthy o = true -> serve o r t = aserve o r t.
-Proof.
-  intros H. unfold serve, aserve.
-  destruct (lookup t (handlers_of o r)) as [h|] eqn:E; [|reflexivity].
-  assert (Ht : truthy h = true).
-  { exact (lookup_forallb truthy t (handlers_of o r) h (handlers_truthy o r H) E). }
-  rewrite Ht. reflexivity.
-Qed.
-
-Lemma new_runtime_truthy ov o :
-  objs_truthy o = true -> table_truthy ov = true -> objs_truthy (snd (new_runtime ov o)) = true.
-Proof.
-  intros Ho Hov. pose proof (defaults_truthy o Ho) as Hd.
-  unfold objs_truthy in *. simpl. apply andb_true_iff in Ho. destruct Ho as [Hh _].
-  rewrite table_truthy_app, Hov, Hd, Hh. reflexivity.
-Qed.
-
-Lemma derive_truthy r ov o :
-  objs_truthy o = true -> table_truthy ov = true -> objs_truthy (snd (derive r ov o)) = true.
-Proof.
-  intros Ho Hov. unfold derive. apply new_runtime_truthy; [exact Ho|].
-  rewrite table_truthy_app, Hov, (handlers_truthy o r Ho). reflexivity.
-Qed.
-
-Lemma register_truthy t h o :
-  objs_truthy o = true -> truthy h = true -> objs_truthy (register_default t h o) = true.
-Proof.
-  unfold objs_truthy. simpl. intros Ho Hh. apply andb_true_iff in Ho. destruct Ho as [H1 H2].
-  rewrite H1, H2, Hh. reflexivity.
-Qed.
+(** * The code's serve rule is the specification's *)
+Lemma serve_aserve o r t : serve o r t = aserve o r t.
+Proof. reflexivity. Qed.
 
 (** * Refinement: abstraction function and one commuting lemma per operation *)
 Lemma abs_eq s :
@@ -132,8 +91,7 @@ Qed.
 
 Lemma current_commutes s r s1 :
   state_ok s = true -> current_runtime s = (r, s1) ->
-  acurrent (abs s) = (r, abs s1) /\ state_ok s1 = true /\
-  (objs_truthy (ob s) = true -> objs_truthy (ob s1) = true).
+  acurrent (abs s) = (r, abs s1) /\ state_ok s1 = true.
 Proof.
   intros Hok Hc. unfold acurrent. rewrite (atop_abs s Hok).
   unfold current_runtime in Hc. destruct (cur s) as [c|] eqn:Ec.
@@ -141,11 +99,10 @@ Proof.
   - simpl in Hc. inversion Hc; subst; clear Hc.
     assert (Hsv : saved s = []).
     { unfold state_ok in Hok. rewrite Ec in Hok. destruct (saved s); [reflexivity|discriminate]. }
-    split; [|split].
+    split.
     + rewrite !abs_eq. simpl. unfold saved in *. simpl. rewrite Ec.
       destruct (prev s) as [l|]; simpl in *; subst; reflexivity.
     + unfold state_ok, saved in *; simpl. destruct (prev s) as [l|]; simpl in *; subst; reflexivity.
-    + intros Ht. simpl. exact (new_runtime_truthy [] (ob s) Ht eq_refl).
 Qed.
 
 Lemma exit_commutes s :
@@ -164,77 +121,66 @@ Proof.
 Qed.
 
 Theorem step_commutes c s :
-  state_ok s = true -> objs_truthy (ob s) = true -> op_truthy c = true ->
+  state_ok s = true ->
   abs (fst (step c s)) = fst (astep c (abs s)) /\
   snd (step c s) = snd (astep c (abs s)) /\
-  state_ok (fst (step c s)) = true /\
-  objs_truthy (ob (fst (step c s))) = true.
+  state_ok (fst (step c s)) = true.
 Proof.
-  intros Hok Htr Hop.
+  intros Hok.
   assert (Hob : aob (abs s) = ob s) by (rewrite abs_eq; reflexivity).
   destruct c as [ov|[|r] ov|[|r]| |r| | |t h|t]; simpl in *.
   - (* New *)
-    rewrite Hob. repeat split; try exact Hok.
-    + apply abs_with_ob.
-    + exact (new_runtime_truthy ov (ob s) Htr Hop).
+    rewrite Hob. repeat split; try exact Hok. apply abs_with_ob.
   - (* Derive SCur *)
     destruct (current_runtime s) as [r s1] eqn:Ec.
-    destruct (current_commutes s r s1 Hok Ec) as (Ha & Hok1 & Ht1). rewrite Ha.
+    destruct (current_commutes s r s1 Hok Ec) as (Ha & Hok1). rewrite Ha.
     assert (Hob1 : aob (abs s1) = ob s1) by (rewrite abs_eq; reflexivity).
-    simpl. rewrite Hob1. repeat split; try exact Hok1.
-    + apply abs_with_ob.
-    + exact (derive_truthy r ov (ob s1) (Ht1 Htr) Hop).
+    simpl. rewrite Hob1. repeat split; try exact Hok1. apply abs_with_ob.
   - (* Derive (SObj r) *)
-    rewrite Hob. repeat split; try exact Hok.
-    + apply abs_with_ob.
-    + exact (derive_truthy r ov (ob s) Htr Hop).
+    rewrite Hob. repeat split; try exact Hok. apply abs_with_ob.
   - (* DeriveBad SCur *)
     destruct (current_runtime s) as [r s1] eqn:Ec.
-    destruct (current_commutes s r s1 Hok Ec) as (Ha & Hok1 & Ht1). rewrite Ha. simpl. auto.
+    destruct (current_commutes s r s1 Hok Ec) as (Ha & Hok1). rewrite Ha. simpl. auto.
   - (* DeriveBad (SObj r) *) auto.
   - (* GetCur *)
     destruct (current_runtime s) as [r s1] eqn:Ec.
-    destruct (current_commutes s r s1 Hok Ec) as (Ha & Hok1 & Ht1). rewrite Ha. simpl. auto.
+    destruct (current_commutes s r s1 Hok Ec) as (Ha & Hok1). rewrite Ha. simpl. auto.
   - (* Enter *)
-    repeat split; try exact Htr.
+    repeat split.
     + rewrite !abs_eq. unfold saved; simpl. fold (saved s).
       destruct (abs_ctl (cur s) (saved s)); reflexivity.
     + unfold state_ok, saved; simpl. fold (saved s). exact Hok.
   - (* Exit *)
     pose proof (exit_commutes s Hok) as He.
     destruct (exit_ s) as [s'|].
-    + destruct He as (Hp & Hok' & Hob'). rewrite Hp. simpl. rewrite Hob'. auto.
+    + destruct He as (Hp & Hok' & Hob'). rewrite Hp. simpl. auto.
     + rewrite He. simpl. auto.
   - (* ExitExc *)
     pose proof (exit_commutes s Hok) as He.
     destruct (exit_ s) as [s'|].
-    + destruct He as (Hp & Hok' & Hob'). rewrite Hp. simpl. rewrite Hob'. auto.
+    + destruct He as (Hp & Hok' & Hob'). rewrite Hp. simpl. auto.
     + rewrite He. simpl. auto.
   - (* RegisterDefault *)
-    rewrite Hob. repeat split; try exact Hok.
-    + apply abs_with_ob.
-    + exact (register_truthy t h (ob s) Htr Hop).
+    rewrite Hob. repeat split; try exact Hok. apply abs_with_ob.
   - (* Run *)
     destruct (current_runtime s) as [r s1] eqn:Ec.
-    destruct (current_commutes s r s1 Hok Ec) as (Ha & Hok1 & Ht1). rewrite Ha. simpl.
+    destruct (current_commutes s r s1 Hok Ec) as (Ha & Hok1). rewrite Ha. simpl.
     assert (Hob1 : aob (abs s1) = ob s1) by (rewrite abs_eq; reflexivity).
     rewrite Hob1. repeat split; auto.
-    exact (serve_aserve (ob s1) r t (Ht1 Htr)).
 Qed.
 
 (** Lifted over histories of any length. *)
 Theorem refines_stack ops : forall s,
-  state_ok s = true -> objs_truthy (ob s) = true -> forallb op_truthy ops = true ->
+  state_ok s = true ->
   snd (run ops s) = snd (arun ops (abs s)) /\
   abs (fst (run ops s)) = fst (arun ops (abs s)) /\
   state_ok (fst (run ops s)) = true.
 Proof.
-  induction ops as [|c ops IH]; intros s Hok Htr Hops.
+  induction ops as [|c ops IH]; intros s Hok.
   - simpl. auto.
-  - simpl in Hops. apply andb_true_iff in Hops. destruct Hops as [Hc Hops].
-    destruct (step_commutes c s Hok Htr Hc) as (Ha & Ho & Hok1 & Htr1).
+  - destruct (step_commutes c s Hok) as (Ha & Ho & Hok1).
     rewrite run_cons, arun_cons. simpl.
-    destruct (IH (fst (step c s)) Hok1 Htr1 Hops) as (I1 & I2 & I3).
+    destruct (IH (fst (step c s)) Hok1) as (I1 & I2 & I3).
     rewrite <- Ha, <- Ho, I1, I2. auto.
 Qed.
 
@@ -503,7 +449,7 @@ Qed.
 
 (** * The serve rule *)
 Theorem serve_rule s r t :
-  cur s = Some r -> objs_truthy (ob s) = true ->
+  cur s = Some r ->
   step (Run t) s =
     (s, match lookup t (handlers_of (ob s) r) with
         | Some h => OServed h
@@ -513,8 +459,7 @@ Theorem serve_rule s r t :
                   end
         end).
 Proof.
-  intros Hr Ht. simpl. rewrite (current_some s r Hr).
-  rewrite (serve_aserve (ob s) r t Ht). reflexivity.
+  intros Hr. simpl. rewrite (current_some s r Hr). reflexivity.
 Qed.
 
 Theorem serve_rule_no_runtime s t :
@@ -526,7 +471,6 @@ Proof.
   intros Hn. simpl. unfold current_runtime. rewrite Hn. simpl.
   unfold serve, handlers_of. simpl. rewrite N.eqb_refl. simpl.
   destruct (lookup t (defaults (ob s))) as [h|]; auto.
-  destruct (truthy h); auto.
 Qed.
 
 (** * Late defaults *)
@@ -580,20 +524,22 @@ Qed.
 
 (** * Refutations (concrete witnesses, by computation) *)
 
-(** The CURRENT code departs from the property text in one corner: a held handler whose truth
-    value is False ([falsy_tag]) is skipped by [self.handlers.get(T) or _DEFAULT_HANDLERS[T]]
-    in favour of the default.  Hence the [op_truthy]/[objs_truthy] side conditions. *)
+(** The OLD [or] fallback of Runtime.run (before fix: 8a7cb3b; NOT the current code): a held
+    handler whose truth value is False ([falsy_tag]) was skipped in favour of the default. *)
 Definition falsy_witness : list op :=
   [RegisterDefault 1 2; New [(1, falsy_tag)]; Enter 0; Run 1]%N.
 
-Theorem falsy_handler_refuted :
+Theorem old_or_fallback_refuted :
   exists ops s,
-    state_ok s = true /\ objs_truthy (ob s) = true /\
-    snd (run ops s) <> snd (arun ops (abs s)).
+    state_ok s = true /\
+    (* old code: the default (handler 2) answers *)
+    last (snd (run_or_old ops s)) ODone = OServed 2%N /\
+    (* the stack specification: the held handler answers *)
+    last (snd (arun ops (abs s))) ODone = OServed falsy_tag /\
+    (* and so does the current code *)
+    snd (run ops s) = snd (arun ops (abs s)).
 Proof.
-  exists falsy_witness, (fresh_thread (mkObjs [] 0%N [])).
-  split; [reflexivity|]. split; [reflexivity|].
-  vm_compute. intros H. discriminate H.
+  exists falsy_witness, (fresh_thread (mkObjs [] 0%N [])). vm_compute. repeat split.
 Qed.
 
 (** The OLD code (restore pointer on the runtime object, before fix: 93f0f4c). *)
